@@ -6,6 +6,7 @@
 #include <stdlib.h>
 #include <string.h>
 #include <stdint.h>
+#include <sys/mman.h>
 #include <librfn/ringbuf.h>
 
 int main(int argc, char **argv)
@@ -14,8 +15,12 @@ int main(int argc, char **argv)
 	size_t len = strtoull(argv[1], 0, 10), start = strtoull(argv[2], 0, 10);
 	unsigned long long total = strtoull(argv[3], 0, 10), moved = 0;
 	uint64_t st = strtoull(argv[4], 0, 10) * 0x9E3779B97F4A7C15ull + 99;
-	uint8_t *mem = malloc(len + 32);
-	memset(mem, 0xEE, len + 32);
+	/* rings of a gigabyte and more (indices beyond 2^31): address space only, the pages that are touched get memory */
+	int huge = len > ((size_t)1 << 30);
+	uint8_t *mem = huge ? mmap(NULL, len + 32, PROT_READ | PROT_WRITE, MAP_PRIVATE | MAP_ANONYMOUS | MAP_NORESERVE, -1, 0) : malloc(len + 32);
+	if (!mem || mem == MAP_FAILED) { printf("OK 0\n"); return 0; }     /* no address space: nothing explored (counted as 0 bytes) */
+	if (huge) { memset(mem, 0xEE, 16); memset(mem + 16 + len, 0xEE, 16); }
+	else memset(mem, 0xEE, len + 32);
 	ringbuf_t rb;
 	ringbuf_init(&rb, mem + 16, len);
 	rb.readi = start; rb.writei = start;
@@ -26,7 +31,7 @@ int main(int argc, char **argv)
 		st ^= st >> 12; st ^= st << 25; st ^= st >> 27;
 		uint64_t r = st * 0x2545F4914F6CDD1Dull;
 		/* every 64th round (and the first two) fills the ring completely: the capacity clause; otherwise a burst */
-		int fill = (round < 2) || (round & 63) == 0;
+		int fill = !huge && ((round < 2) || (round & 63) == 0);
 		size_t burst = fill ? len + 1 : (size_t)((r >> 33) % len);
 		if (!fill && burst > 4096) burst = 4096 + (burst & 1023);
 		round++;
@@ -53,6 +58,27 @@ int main(int argc, char **argv)
 		if ((round & 255) == 0 || fill)
 			for (int g = 0; g < 16; g++)
 				if (mem[g] != 0xEE || mem[16 + len + g] != 0xEE) { printf("FAIL guard-bytes len=%zu start=%zu after=%llu\n", len, start, moved); return 0; }
+	}
+	/* re-initialisation of a used descriptor over the same memory with a shorter length: an empty ring of len2 bytes,
+	 * whatever the indices were, and nothing written beyond the len2 bytes handed over */
+	if (!huge && len >= 4) {
+		size_t len2 = len / 2;
+		memset(mem + 16 + len2, 0xEE, len - len2);
+		ringbuf_init(&rb, mem + 16, len2);
+		if (!ringbuf_empty(&rb) || ringbuf_get(&rb) != -1) { printf("FAIL reinit-not-empty len=%zu start=%zu after=%llu len2=%zu\n", len, start, moved, len2); return 0; }
+		for (int lap = 0; lap < 3; lap++) {
+			size_t n = 0;
+			while (ringbuf_put(&rb, (uint8_t)(n * 7 + lap + 1))) {
+				if (++n > len2) { printf("FAIL reinit-capacity len=%zu start=%zu after=%llu len2=%zu\n", len, start, moved, len2); return 0; }
+			}
+			if (n != len2 - 1) { printf("FAIL reinit-capacity len=%zu start=%zu after=%llu len2=%zu accepted=%zu\n", len, start, moved, len2, n); return 0; }
+			for (size_t i = 0; i < n; i++) {
+				int d = ringbuf_get(&rb);
+				if (d != (uint8_t)(i * 7 + lap + 1)) { printf("FAIL reinit-get-value len=%zu start=%zu after=%llu len2=%zu got=%d\n", len, start, moved, len2, d); return 0; }
+			}
+			for (size_t g = len2; g < len; g++)
+				if (mem[16 + g] != 0xEE) { printf("FAIL reinit-wrote-outside len=%zu start=%zu after=%llu len2=%zu at=%zu\n", len, start, moved, len2, g); return 0; }
+		}
 	}
 	printf("OK %llu\n", moved);
 	return 0;
